@@ -78,7 +78,9 @@ def get_from_tfrecord(
             "int64": tf.int64,
             "float16": tf.string,
             "float32": tf.float32,
-            "float64": tf.float64,
+            # Saved in a FloatList (float32), FixedLenFeature does not support
+            # float64. Cast back after parsing.
+            "float64": tf.float32,
         }[attribute.dtype]
 
         shape: tuple[int, ...] = attribute.shape
@@ -98,6 +100,8 @@ def get_from_tfrecord(
                     rec[attribute.name], tf.float16)
                 rec[attribute.name] = tf.ensure_shape(rec[attribute.name],
                                                       shape=attribute.shape)
+            elif attribute.dtype == "float64":
+                rec[attribute.name] = tf.cast(rec[attribute.name], tf.float64)
         return rec
 
     return from_tfrecord
